@@ -4,7 +4,6 @@ import (
 	"encoding/json"
 	"fmt"
 	"io"
-	"net"
 	"net/http"
 	"sort"
 	"strings"
@@ -143,13 +142,16 @@ type FakeMaster struct {
 	Subscribed chan string
 	// ReconcileAnswer: false = ignore RECONCILE calls
 	NoReconcileAnswer bool
+	// ReconcileBare: reconciliation answers are built the way the master builds the statuses it generates itself: no
+	// executor id, no labels, no uuid (the optional fields an executor fills in).
+	ReconcileBare bool
 	Log               func(kind string, seq int64, data interface{})
 }
 
 func NewFakeMaster(agents []*Agent, clock *int64) *FakeMaster {
 	m := &FakeMaster{agents: agents, tasks: map[string]*SimTask{}, drop: make(chan struct{}, 8), clock: clock, t0: time.Now(),
 		offers: map[string]*OfferRec{}, Subscribed: make(chan string, 64)}
-	ln, err := net.Listen("tcp", "127.0.0.1:0")
+	ln, err := Listen()
 	if err != nil {
 		panic(err)
 	}
@@ -530,6 +532,9 @@ func (m *FakeMaster) statusFor(t *SimTask, st mesos.TaskState, reason *mesos.Tas
 	}
 	if msg != "" {
 		s.Message = &msg
+	}
+	if m.ReconcileBare && reason != nil && *reason == mesos.REASON_RECONCILIATION {
+		s.ExecutorID, s.Labels, s.UUID = nil, nil, nil
 	}
 	return s
 }
